@@ -805,6 +805,14 @@ class BaseDiscretizer(BaseEstimator, TransformerMixin):
                 # grouping discarded_value with kept_value
                 order.group(discarded_value, kept_value)
 
+                # quantitative features: a group is identified by its upper bound
+                if (
+                    feature in self.quantitative_features
+                    and discarded_value != self.str_nan
+                    and discarded_value > kept_value
+                ):
+                    order.replace_group_leader(kept_value, discarded_value)
+
             # replacing group leader if requested
             elif mode == "replace":
                 # grouping kept_value with discarded_value
